@@ -25,12 +25,13 @@ from pams.utils.json_random import JsonRandom  # noqa: E402
 RULE = ("complete enumeration of (1) all inheritance graphs on n named entries with every placement of ordinary and excluded keys, "
         "(2) all count / inclusive-range declarations for one or two market and agent groups, (3) all subsets of market groups "
         "an agent can list, (4) all distribution forms x PRNG answers, (5) all public class names + user classes + clashes, "
-        "(6) the legacy session keys over the parameter grid; each compared with an independently written reference; "
+        "(6) the legacy session keys over the parameter grid, (7) markets, agents and events taking their class and parameters from an ancestor "
+        "one or two levels up, run through the runner; each compared with an independently written reference; "
         "distinct = distinct outcome classes")
 WIT = ["inherit_ok", "inherit_missing_parent", "inherit_cycle", "inherit_excluded_key_skipped", "inherit_diamond_or_chain",
        "range_len1", "range_len2", "range_len3plus", "count_group", "two_groups", "rejected_declaration",
        "inherited_range_ignored", "access_subset", "uniform", "const", "normal", "expon", "malformed_spec_rejected",
-       "builtin_class_resolved", "user_class_resolved", "class_error_reported", "legacy_key_equal", "legacy_both_rejected", "class_resolution_sequences", "inherited_count"]
+       "builtin_class_resolved", "user_class_resolved", "class_error_reported", "legacy_key_equal", "legacy_both_rejected", "class_resolution_sequences", "inherited_count", "entity_through_extends"]
 
 # ---------------------------------------------------------------------------------------------- 1
 
@@ -463,6 +464,78 @@ GRIDS = {"inheritance": inherit_fn, "counts_and_ranges": range_fn, "accessible_m
          "random_values": random_fn, "class_names": class_fn, "legacy_keys": legacy_fn}
 
 
+# ---------------------------------------------------------------------------------------------- 7
+# every kind of configured entity (market, agent, event) may take its class and its parameters from an ancestor
+
+
+def entity_cases():
+    for kind in ("market", "agent", "event"):
+        for depth in (1, 2):
+            for class_at in range(0, depth + 1):  # 0 = the listed entry itself, depth = the most distant ancestor
+                for override in (False, True):
+                    yield (kind, depth, class_at, override)
+
+
+def entity_fn(case, wit):
+    kind, depth, class_at, override = case
+    full = {"market": {"class": "Market", "tickSize": 0.5, "marketPrice": 100.0},
+            "agent": {"class": "FCNAgent", "numAgents": 1, "markets": ["M"], "cashAmount": 1000, "assetVolume": 5, "fundamentalWeight": 1.0,
+                      "chartWeight": 0.0, "noiseWeight": 0.0, "noiseScale": 0.001, "timeWindowSize": 3, "orderMargin": 0.0},
+            "event": {"class": "FundamentalPriceShock", "target": "M", "triggerTime": 1, "priceChangeRate": 0.5, "shockTimeLength": 1}}
+    okey, oval = {"market": ("tickSize", 2.0), "agent": ("cashAmount", 777), "event": ("priceChangeRate", -0.25)}[kind]
+    names = {"market": "M", "agent": "A", "event": "E"}
+    cfg = {"simulation": {"markets": ["M"], "agents": ["A"],
+                          "sessions": [{"sessionName": 0, "iterationSteps": 3, "withOrderPlacement": True, "withOrderExecution": True,
+                                        "withPrint": False, "maxNormalOrders": 1, "events": ["E"]}]}}
+    for k in ("market", "agent", "event"):
+        if k != kind:
+            cfg[names[k]] = dict(full[k])
+    # the chain: listed entry <- ancestor 1 <- ... ; the class sits at level class_at, all other keys at the far end
+    chain = [names[kind]] + ["%sAnc%d" % (names[kind], i) for i in range(1, depth + 1)]
+    for lvl, nm in enumerate(chain):
+        blk = {}
+        if lvl < depth:
+            blk["extends"] = chain[lvl + 1]
+        if lvl == depth:
+            blk.update({k: v for k, v in full[kind].items() if k != "class"})
+        if lvl == class_at:
+            blk["class"] = full[kind]["class"]
+        if lvl == 0 and override:
+            blk[okey] = oval
+        cfg[nm] = blk
+    r = SequentialRunner(cfg, random.Random(3), None)
+    try:
+        r._setup()
+        r._run()
+    except Exception as e:  # noqa
+        raise Violation("C18.entity_inheritance", "a %s whose class or parameters come from an ancestor through extends is rejected" % kind,
+                        "%s: %s | case %s" % (type(e).__name__, str(e)[:100], case))
+    sim = r.simulator
+    want = oval if override else full[kind][okey]
+    if kind == "market":
+        ent = sim.name2market["M"]
+        got = ent.tick_size
+    elif kind == "agent":
+        ent = sim.agents[0]
+        got = ent.cash_amount
+    else:
+        ent, got = None, want  # judged by what the event does (below), not by the simulator's hook registry
+    if ent is not None and (type(ent).__name__ != full[kind]["class"] or got != want):
+        raise Violation("C18.entity_inheritance", "a %s does not get its class / the nearest definition of a key through extends" % kind,
+                        "class %s, %s=%r expected %s, %r | case %s" % (type(ent).__name__, okey, got, full[kind]["class"], want, case))
+    if kind == "event":
+        m = sim.name2market["M"]
+        f1, f2 = m.get_fundamental_price(1), m.get_fundamental_price(0)
+        if abs(f1 / f2 - (1 + want)) > 1e-12:
+            raise Violation("C18.entity_inheritance", "an event configured through extends does not act with the nearest definition of its parameters",
+                            "fundamental ratio %r expected %r | case %s" % (f1 / f2, 1 + want, case))
+    wit.inc("entity_through_extends")
+    return (kind, depth, class_at == 0, override)
+
+
+GRIDS["entity_kinds_through_extends"] = entity_fn
+
+
 def run(tier, seed):
     res = common.Result("C18", tier, seed)
     if tier == "quick":
@@ -475,6 +548,7 @@ def run(tier, seed):
     run_grid(res, "random_values", list(random_cases()), random_fn, seed)
     run_grid(res, "class_names", class_cases(), class_fn, seed)
     run_grid(res, "legacy_keys", list(legacy_cases()), legacy_fn, seed)
+    run_grid(res, "entity_kinds_through_extends", list(entity_cases()), entity_fn, seed)
     res.coverage["exhaustive"] = True
     res.coverage["rule"] = RULE
     res.assumptions = ["PRNG answer alphabet {2^-53, 1/4, 1/2, 1-2^-53} (gauss {-3,0,3}); u = 0.0 exactly is excluded for expon (probability 2^-53)",
